@@ -52,7 +52,7 @@ def dispatch(c):
 
 
 def families(tier, seed):
-    fam = [x for x in gen.c01_structured() if x[0].startswith(("F1", "F2", "F3", "F4", "F6", "F7", "F8"))] + gen.c04_extra() + \
+    fam = [x for x in gen.c01_structured() if x[0].startswith(("F1", "F2", "F3", "F4", "F6", "F7", "F8", "F9"))] + gen.c04_extra() + \
         gen.c01_random(seed + 100, 16 if tier == "quick" else 200)
     out = []
     for tag, feats, model in fam:
